@@ -18,6 +18,10 @@ J, G = ops.job_spec, bf.G
 T = (10, 20, 30)
 RS1 = (('r/a/1', 2), ('r/a/2', 3))   # two resources with the same deduped id
 RS2 = (('r/a/1', 2), ('r/b/1', 5))
+# the same resource names with other quantities: a job-private attempt is first registered with the whole instance's resources
+# (mark_job_creating) and later, under the same names, with the job's own (job started / complete)
+RS1_ALT = (('r/a/1', 7), ('r/a/2', 3))
+RS2_ALT = (('r/a/1', 2), ('r/b/1', 1))
 
 
 def billed(a):
@@ -63,6 +67,8 @@ class H(dbmc.Harness):
                 out.append(('complete', j, a, 'i1', 'Success', 20, 20, rs))
             if (j, a) in atts and (j, a) not in have_rs:
                 out.append(('resources', j, a, rs))
+            if (j, a) in atts and (j == 1 or self.tier != 'quick'):
+                out.append(('resources', j, a, RS1_ALT if j == 1 else RS2_ALT))   # before or after the other registration, before or after usage was billed
             if (j, a) in atts:
                 out.append(('unschedule_at', j, a, 'i1', 20))
         if st == 'active':
@@ -199,7 +205,7 @@ _patch_snapshot()
 def check(tier, seed, procs):
     depth = 5 if tier == 'quick' else 7
     res = dbmc.bfs(H, (tier,), depth=depth, procs=procs, time_budget=90 if tier == 'quick' else 900)
-    cov = bf.coverage(res, f'2 jobs (root group / nested group), attempts a1 (a2 thorough), b1, resources with a shared de-duplicated id, '
+    cov = bf.coverage(res, f'2 jobs (root group / nested group), attempts a1 (a2 thorough), b1, resources with a shared de-duplicated id and re-registration of the same names with other quantities, '
                            f'times {T}, 2 billing dates, 2 token shards, depth {depth}')
     return {'coverage': cov, 'violations': res.violations, 'assumptions': bf.ASSUME + [
         'per-day split is judged only through its sum over days (the day a delta lands on depends on the wall clock)'],
